@@ -56,6 +56,21 @@ def monitor_records(spec, sem, result):
                            kind="placeholder" if "?" in e["job"].split("/")[0].rsplit("[", 1)[-1] else ""))
         elif e["ev"] == "StageEnd":
             out.append(rec(ev="StageEnd", job=e["job"], outcome=e["outcome"]))
+        elif e["ev"] == "JobSubmitted":
+            out.append(rec(ev="JobSubmitted", job=e["job"], kind=e.get("md", "")))
+        elif e["ev"] == "JournalWrite" and "md" in e:
+            out.append(rec(ev="JournalWrite", job=e["job"], kind=e["md"], txt=e["file"]))
+        elif e["ev"] == "JournalSeen":
+            # the sentinel the entry announces (what mrp will cache when it routes it)
+            st = e["file"].rsplit(".", 1)[-1]
+            for pre in ("split_", "join_"):
+                if st.startswith(pre):
+                    st = st[len(pre):]
+            out.append(rec(ev="JournalSeen", txt=e["file"], kind=st))
+        elif e["ev"] == "JournalRemove":
+            out.append(rec(ev="JournalRemove", txt=e["file"]))
+        elif e["ev"] == "MdCached" and e.get("md") not in (None, "."):
+            out.append(rec(ev="MdCache", kind=e["md"], txt=e.get("name", ""), flag=True))
         elif e["ev"] == "StageKilled":
             out.append(rec(ev="StageKilled", job=e["job"]))
         elif e["ev"] == "Restart":
